@@ -99,6 +99,11 @@ func (g *generatorv2) GenerateFile(f *file) error {
 	if _, err := buff.Write(bs[lastOff:]); err != nil {
 		return err
 	}
+	// The source file need not end in a newline; what is generated below
+	// starts on a line of its own.
+	if n := len(bs); n > 0 && bs[n-1] != '\n' {
+		buff.WriteByte('\n')
+	}
 
 	// At the bottom of the file, generate the type definitions and modifier function
 	// bodies.
